@@ -140,6 +140,10 @@ pub fn run(ctx: &Ctx) -> i32 {
         let cfg = cfg_for(t, exact);
         st.merge(ctx.run_prop(name, total / 2, move || recipe_strategy(len), move |r| Some(HistCase { oracle: "c08".into(), hist: elaborate(&cfg, r) })));
     }
+    for (name, p) in [("programs-with-large-dimensions", Profile::LargeDims), ("programs-with-wide-magnitudes", Profile::WideMagnitudes)] {
+        let cfg = cfg_for(t, false).with_profile(p, t == Tier::Thorough, crate::exec::IS_F32);
+        st.merge(ctx.run_prop(name, profile_total(t, p), move || recipe_strategy(len), move |r| Some(HistCase { oracle: "c08".into(), hist: elaborate(&cfg, r) })));
+    }
     st.merge(ctx.run_indexed("training-loops-with-user-optimizer", 3 * 3 * 4 * 2, None, |i| {
         Some(LoopCase8 { input: 1 + (i % 3) as usize, hidden: 2 + ((i / 3) % 3) as usize, output: 1 + (i % 2) as usize, batch: ((i / 9) % 4) as usize, iterations: 3, skip: (i / 36) as usize, vseed: i * 77 + ctx.seed })
     }));
